@@ -65,6 +65,10 @@ THEOREMS = [
     "C17_preview_inherited_witness",
     "C17_factory_per_instance",
     "C17_factory_cached_witness",
+    "C17_run_names_repaired",
+    "C17_run_names_witness",
+    "C17_class_per_definition_by",
+    "C17_class_same_by_eq_witness",
 ]
 RULE = (
     "generated definitions written to REAL source files in the case's cwd and imported from there (inspect/ast "
@@ -90,12 +94,13 @@ RULE = (
     "(k0..k99, shuffled or not) 10..100, tables of 10..101 rows, dataclasses with 10..21 (thorough 100) fields x1..xN, "
     "functions with 10..21 (30) parameters x1..xN, positional/keyword splits on both sides of position 10 and keywords "
     "written in reverse or shuffled order; CLASS REGISTRY: a dictionary specification preceded by another one of equal "
-    "hash (-1/-2, 1/True, 0/False), a dataclass preceded by another one of the same __name__; BODY STRUCTURE: the return "
+    "hash (-1/-2, 1/True, 0/False, 0.0/-0.0 alone and inside tuples, 1/1.0, 0.0/0), a dataclass preceded by another one of the same __name__; BODY STRUCTURE: the return "
     "statement 0-3 compound statements deep (if / else / elif / for / while / try-finally / except / try-else / with), "
     "next to docstrings and comments mentioning return, lambdas, helper functions without and with return statements "
     "(one value, a tuple, two returns), an async helper, a class with a method, a decorated helper, a helper two "
     "compound statements deep, a non-ASCII literal on the line of the return; PARAMETER KINDS: positional-only prefix, "
-    "keyword-only suffix, `*var` / `**var` under reserved and unreserved names; SPELLINGS: returned values written as "
+    "keyword-only suffix, `*var` / `**var` under reserved and unreserved names; RUN KEYWORDS: a parameter named like a keyword of Node.run (run_data_tree, fetch_input, raise_run_exceptions ...), "
+    "given by keyword at call time; SPELLINGS: returned values written as "
     "quoted subscripts (either quote), calls without blanks / with blanks inside the parentheses / with hex, underscore, "
     "exponent literals, arithmetic without blanks, a trailing comma -- the expected label is the SOURCE text; ANNOTATED: "
     "typing.Annotated directly, in a union, in Optional, nested in a generic and in itself, also as string annotations; "
@@ -149,6 +154,8 @@ ASSUMPTIONS = [
     "output hints of functions without return annotation; these are compared with the model only",
 ]
 
+#: the keywords of Node.run: `node(..., <name>=v)` goes through `pull` and `run`, which have parameters of these names
+RUN_KW = ["run_data_tree", "run_parent_trees_too", "fetch_input", "check_readiness", "raise_run_exceptions", "emit_ran_signal"]
 INIT_KW = {"label", "parent", "delete_existing_savefiles", "autoload", "autorun", "checkpoint", "self", "args", "kwargs"}
 NAMES = ["a", "b", "c", "x", "y", "val", "n_", "q1", "item", "other"]
 ANNS = [None, None, None, "int", "str", "None", "int | None", "typing.Union[int, str]", "typing.Optional[str]", "bool", "list",
@@ -211,6 +218,8 @@ def val(t: str):
         return int(t[1:])
     if t.startswith("s"):
         return t[1:]
+    if t.startswith("f"):
+        return float(t[1:])  # f0.0, f-0.0, f1.0 (the sign of zero is part of the token)
     raise ValueError(t)
 
 
@@ -233,6 +242,8 @@ def tok(v) -> str:
         return "bT" if v else "bF"
     if isinstance(v, int):
         return f"i{v}"
+    if isinstance(v, float):
+        return f"f{v!r}"
     if isinstance(v, str):
         return "s" + v
     if isinstance(v, Term):
@@ -466,6 +477,16 @@ def gen_fn_case(rng, tier, idx, n=None, exhaustive=False):
     if n >= 1 and not exhaustive and rng.random() < 0.02:
         # a parameter named like a keyword of Node.__init__: the definition is refused
         params[rng.randrange(n)]["name"] = rng.choice(["label", "parent", "autorun", "args", "kwargs", "checkpoint", "self"])
+    if n >= 1 and not exhaustive and rng.random() < 0.04:
+        # a parameter named like a keyword of Node.run: can it be given its value by keyword when the node is called?
+        q = params[rng.randrange(n)]
+        q["name"] = rng.choice(RUN_KW)
+        if q["name"] == "raise_run_exceptions":
+            # (taken for the run FLAG by the pinned code: keep it truthy, a false one would also silence a failing run)
+            q["ann"] = "int"
+            q.pop("alts", None)
+            if q["default"] is not None:
+                q["default"] = "i7"
     nret = rng.choice([0, 1, 1, 1, 2, 2, 3, 4])
     rets = []  # [spec, source text, pre-statement, hint]
     used = set()
@@ -693,7 +714,10 @@ def gen_xf_case(rng, tier, idx, kind=None, n=None):
                 # earlier in the session ANOTHER specification was used that python gives the same hash: it differs in
                 # one default only, by a value with the same hash (hash(-1) == hash(-2); 1 == True, 0 == False)
                 i = rng.randrange(len(spec))
-                a, b = rng.choice([("i-1", "i-2"), ("i-2", "i-1"), ("i1", "bT"), ("bT", "i1"), ("i0", "bF"), ("bF", "i0")])
+                # -- or by a value that is even `==` to it: signed zeros, the same number as int / float / bool
+                a, b = rng.choice([("i-1", "i-2"), ("i-2", "i-1"), ("i1", "bT"), ("bT", "i1"), ("i0", "bF"), ("bF", "i0"),
+                                   ("f0.0", "f-0.0"), ("f-0.0", "f0.0"), ("f-0.0", "f0.0"), ("i1", "f1.0"), ("f0.0", "i0"),
+                                   ("tuple(i1,f0.0)", "tuple(i1,f-0.0)"), ("tuple(f-0.0)", "tuple(f0.0)")])
                 spec[i] = [spec[i][0], None, a]
                 alts.pop(spec[i][0], None)
                 case["prior_spec"] = [list(e) for e in spec]
@@ -930,7 +954,7 @@ def gen_cases(rng, tier):
                      "def list 1", "inst 1 tuple(i1", "call 0 =", "inst 0", "call 1 i1 item_0", "call 2 i1",
                      "retstmt bare", "def fn 2 - t0", "def fn 1 - t0", "retann - x", "retelt x", "param a -", "io",
                      "retstmt frob", "show",
-                     "cfg 0 0", "cfg 0 0 0 0 0 0 0 0 2", "regkey D", "regkey D x", "def fn 1 - I0", "def fn 1 - I0:x",
+                     "cfg 0 0", "cfg 0 0 0 0 0 0 0 0 0 0 2", "regkey D", "regkey D x", "def fn 1 - I0", "def fn 1 - I0:x",
                      "def list 1", "inst 1 @7", "inst 1 @x.marker", "inst 1 @7.", "inst 1 @7.marker"],
            "expect": ["bad-op"] * 7 + ["def ok ins=[item_0:-=ND] outs=[list:builtins.list]", "bad-op", "bad-op",
                                        "inst ok ins=[item_0=ND]", "bad-op", "bad-op"]
@@ -996,6 +1020,9 @@ def corpus():
            "ret_ann": "tuple[_T, _T, _T, typing.Annotated[int, 'angstrom']]", "future": True, "api": "dec",
            "layout": "line", "wrap": ["if"], "extras": [], "nonascii": False,
            "runs": [{"inst": [["i1"], {}], "call": [[], {"b": "list(i2)"}]}]}
+    # signed zeros in two specifications of one hash; a parameter named like a keyword of Node.run (KF-C17-10/11)
+    yield {"kind": "dict", "id": "c-d3", "n": 1, "api": "helper", "spec_form": "dict", "spec": [["s", None, "f-0.0"]], "prior_spec": [["s", None, "f0.0"]], "runs": [{"inst": [[], {}], "call": [[], {}]}]}
+    yield {"kind": "fn", "id": "c-f8", "params": [{"name": "x", "ann": None, "default": None}, {"name": "fetch_input", "ann": "int", "default": "i2"}], "rets": [["t0", "r0", "r0 = _T(0, x, fetch_input)"]], "single_tuple": False, "ret_style": "values", "declared": None, "validate": True, "ret_ann": None, "future": False, "api": "dec", "layout": "line", "wrap": [], "extras": [], "nonascii": False, "runs": [{"inst": [[], {}], "call": [["i1"], {"fetch_input": "i5"}]}]}
     # the sentinel idiom, a shared mutable default, and sizes past one digit (item_10 is not item_2's neighbour)
     yield {"kind": "fn", "id": "c-f2", "params": [{"name": "value", "ann": None, "default": None},
                                                    {"name": "fallback", "ann": None, "default": "@0.object",
@@ -1361,7 +1388,14 @@ def _variant():
             raw = 1 if "unit" in T.dataclass_node_factory(_ProbeCV).preview_inputs() else 0
         except Exception:  # noqa: BLE001
             raw = 1
-        _VARIANT = [recast, cached, by_hash, by_name] + _probe_functions() + [raw]
+        try:
+            T.inputs_to_dict_factory({"probe_c17z": (None, 0.0)}, None)
+            z = T.inputs_to_dict_factory({"probe_c17z": (None, -0.0)}, None).preview_inputs()["probe_c17z"][1]
+            same_by_eq = 1 if repr(z) == "0.0" else 0
+        except Exception:  # noqa: BLE001
+            same_by_eq = 1
+        pf = _probe_functions()
+        _VARIANT = [recast, cached, by_hash, by_name] + pf[:4] + [raw, pf[4], same_by_eq]
     return _VARIANT
 
 
@@ -1376,7 +1410,8 @@ def _probe_functions():
         "def c17probe_nested(x):\n    def _h(y):\n        return y\n    pass\n\n"
         "def c17probe_bytes(x):\n    xy = x\n    " + repr("\u00b5") + "; return xy\n\n"
         "def c17probe_var(a, *rest):\n    r = a\n    return r\n\n"
-        "def c17probe_po(a, /):\n    r = a\n    return r\n"
+        "def c17probe_po(a, /):\n    r = a\n    return r\n\n"
+        "def c17probe_run(x, fetch_input=1):\n    r = x\n    return r\n"
     )
     d = tempfile.mkdtemp(prefix="c17probe")
     name = f"c17probe_{os.getpid()}"
@@ -1406,13 +1441,18 @@ def _probe_functions():
             po_by_kw = 0
         except Exception:  # noqa: BLE001
             po_by_kw = 1
+        try:
+            function_node(mod.c17probe_run)
+            run_names_free = 1
+        except ValueError:
+            run_names_free = 0
     finally:
         sys.path.remove(d)
         sys.modules.pop(name, None)
         import shutil
 
         shutil.rmtree(d, ignore_errors=True)
-    return [nested, bytecols, var_by_name, po_by_kw]
+    return [nested, bytecols, var_by_name, po_by_kw, run_names_free]
 
 
 def _classify(e, kind, node=None, before=None):
@@ -1549,6 +1589,17 @@ def _reference(sig_params, a1, k1, a2, k2, plain=False):
     return {"status": status, "b1": dict(b1), "explicit": explicit}
 
 
+def _eq_key(spec):
+    """a specification up to `==` of defaults of one type (0.0 and -0.0 fall together; 1 / True / 1.0 do not)"""
+    def canon(v):
+        if isinstance(v, tuple):
+            return ("tuple", tuple(canon(x) for x in v))
+        if isinstance(v, (int, float, complex, str, bytes)):
+            return (type(v).__name__, v)
+        return ("id", id(v))
+    return tuple((x, a, None if d is None else canon(val(d))) for x, a, d in spec)
+
+
 def _def_line(prev, kind):
     return ("def ok ins=[" + ",".join(f"{k}:{hint_tok(hint)}={tok(d)}" for k, (hint, d) in prev["inputs"].items())
             + "] outs=[" + ",".join(f"{k}:{'*' if kind == 'dc' else hint_tok(hint)}" for k, hint in prev["outputs"].items())
@@ -1659,14 +1710,15 @@ def _run(case, h, modname, variant):
                 # ANOTHER specification was turned into a node class earlier in the session
                 pcls = T.inputs_to_dict_factory(mkspec(case["prior_spec"]), None)
                 obs.append(_def_line(pcls.preview_io(), kind))
-                facts["regkeys"] = [[pcls.__name__, 1]]
+                facts["regkeys"] = [[pcls.__name__, 1, 1]]
             if case["spec_form"] == "list":
                 spec = [x for x, _a, _d in case["spec"]]
             else:
                 spec = mkspec(case["spec"])
             cls = T.inputs_to_dict_factory(spec, None)
             if "regkeys" in facts:
-                facts["regkeys"].append([cls.__name__, 2])
+                # third number: the class of the specification when defaults of one type are compared with `==`
+                facts["regkeys"].append([cls.__name__, 2, 1 if _eq_key(case["prior_spec"]) == _eq_key(case["spec"]) else 2])
             make_inst = (lambda a, k: T.inputs_to_dict(spec, *a, **k)) if case["api"] == "helper" else (lambda a, k: cls(*a, **k))
             ref_params = [(x, E if d is None else val(d)) for x, _a, d in case["spec"]]
             py_defaults = [d for _x, d in ref_params]
@@ -1990,6 +2042,9 @@ def _def_expect(case):
 
     if any(q["name"] in INIT_KW for q in case["params"]):
         return "any"
+    if any(q["name"] in RUN_KW for q in case["params"]):
+        # refusing such a definition is fine (like the __init__ names); a node class that exists is judged on its runs
+        return "any"
     if any(q.get("kind") in ("vp", "vk") for q in case["params"]):
         return "any"  # variadics are documented as unsupported: refusing them or not is not demanded
     nested = sum(EXTRAS[x][1] for x in case.get("extras") or [])
@@ -2020,7 +2075,7 @@ def _def_expect(case):
 def model_input(case, impl=None):
     if case["kind"] == "malformed":
         return list(case["lines"])
-    v = (impl or {}).get("variant") or [0] * 9
+    v = (impl or {}).get("variant") or [0] * 11
     lines = ["cfg " + " ".join(str(x) for x in v)]
     kind = case["kind"]
     if kind == "fn":
@@ -2049,10 +2104,10 @@ def model_input(case, impl=None):
         if case.get("prior_spec") is not None and rk:
             # the names the factory gave the two classes are run-time facts (python's `hash`), observed on the
             # implementation; the numbers stand for the two specifications themselves
-            lines.append(f"regkey {rk[0][0]} {rk[0][1]}")
+            lines.append(f"regkey {rk[0][0]} {rk[0][1]} {rk[0][2]}")
             lines.append(" ".join(["def", "dict", *[f"{x}:{ann_tok(a)}={d if d is not None else '-'}" for x, a, d in case["prior_spec"]]]))
             if len(rk) > 1:
-                lines.append(f"regkey {rk[1][0]} {rk[1][1]}")
+                lines.append(f"regkey {rk[1][0]} {rk[1][1]} {rk[1][2]}")
         lines.append(" ".join(["def", "dict", *[f"{x}:{ann_tok(a)}={d if d is not None else '-'}" for x, a, d in case["spec"]]]))
     elif kind == "dc":
         rk = (impl or {}).get("facts", {}).get("regkeys")
@@ -2172,6 +2227,8 @@ def oracle(case, r):
             sfacts["nested_ret_only"] = True
         if any(q.get("kind") == "po" for q in case["params"]):
             sfacts["has_posonly"] = True
+        if any(q["name"] in RUN_KW for q in case["params"]):
+            sfacts["run_kw_name"] = True
 
     def defsig(f):  # a failure of the definition stage
         f["signature"].update(sfacts)
